@@ -4,9 +4,13 @@ CONSTANTS
   NN = 0
   MaxPN = 0
   MaxPC = 0
+  MaxStray = 0
   UseWriteMu = TRUE
   ChanCap = 1
   RegisterFirst = FALSE
+  AtomicAlloc = TRUE
+  IdDecode = "strict"
+  IdVocab = "small"
 INIT Init
 NEXT Next
 INVARIANTS TypeOK RegisteredBeforeSending
